@@ -50,7 +50,7 @@ def entBlock2Entry (b : Blk) : EntryInfo :=
 
 /-- `adfNameToEntryBlk`: (nSect or none = -1, last entry read, updSect) -/
 def nameToEntryBlkLoop (v : Nat) (intl : Bool) (name : Bytes) : (fuel nSect updSect : Nat) → Prog (Option Nat × Blk × Nat)
-  | 0, _, _ => fault (.outOfFuel "adfNameToEntryBlk.nextSameHash")
+  | 0, _, updSect => return (none, zeroBlk, updSect)      -- chain longer than the volume: -1
   | fuel+1, nSect, updSect => do
     let (rc, entry) ← readEntryBlock v nSect
     if rc ≠ rcOK then return (none, entry, updSect)
@@ -67,7 +67,7 @@ def nameToEntryBlk (v : Nat) (ht : Blk) (name : Bytes) : Prog (Option Nat × Blk
   let intl := useIntl vc.dosType
   let nSect := ht.hash (hashName intl name)
   if nSect = 0 then return (none, zeroBlk, 0)
-  nameToEntryBlkLoop v intl name (volFuel vc) nSect 0
+  nameToEntryBlkLoop v intl name (vc.lastBlock - vc.firstBlock + 1) nSect 0
 
 def stampDates (b : Blk) (t : DateTime) : Blk :=
   let (d, m, k) := time2Amiga t.year t.mon t.day t.hour t.min t.sec
@@ -80,7 +80,7 @@ def writeParent (v : Nat) (dir : Blk) (sect : Nat) : Prog (RC × Blk) := do
 
 /-- walk the chain of `adfCreateEntry`: duplicate check, returns the tail -/
 def createEntryWalk (v : Nat) (intl : Bool) (name : Bytes) : (fuel nSect : Nat) → Prog (Option Blk)
-  | 0, _ => fault (.outOfFuel "adfCreateEntry.nextSameHash")
+  | 0, _ => return none                                   -- chain longer than the volume: -1
   | fuel+1, nSect => do
     let (rc, upd) ← readEntryBlock v nSect
     if rc ≠ rcOK then return none
@@ -111,7 +111,7 @@ def createEntry (v : Nat) (dir : Blk) (name : Bytes) : Prog (Option Nat × Blk) 
         return (none, dir)
       return (some newSect, dir)
   else
-    match ← createEntryWalk v intl name (volFuel vc) nSect with
+    match ← createEntryWalk v intl name (vc.lastBlock - vc.firstBlock + 1) nSect with
     | none => return (none, dir)
     | some upd =>
       match ← get1FreeBlock v with
@@ -409,85 +409,123 @@ def parentDir (v : Nat) : Prog RC := do
 /-- result of a listing: `none` = NULL; entries carry their depth -/
 abbrev Listing := Option (List (Nat × EntryInfo))
 
-mutual
-/-- one hash chain of `adfGetRDirEnt` starting at `sect` -/
-def listChain (v : Nat) (recurs : Bool) (depth : Nat) : (fuel sect : Nat) → Prog Listing
-  | 0, sect => if sect = 0 then return some [] else fault (.outOfFuel "adfGetRDirEnt.nextSameHash")
-  | fuel+1, sect => do
-    if sect = 0 then return some []
-    let (rc, blk) ← readEntryBlock v sect
-    if rc ≠ rcOK then return none
-    let e := { entBlock2Entry blk with sector := sect }
-    let sub ← if recurs ∧ e.type = 2 then listDir v recurs (depth + 1) fuel sect else pure (some [])
-    match ← listChain v recurs depth fuel (blk.w F_nextSameHash) with
-    | none => return none
-    | some rest => return some ((depth, e) :: (sub.getD []) ++ rest)
+def MAX_DIR_DEPTH : Nat := 512
 
-/-- `adfGetRDirEnt` (hash-table mode) -/
-def listDir (v : Nat) (recurs : Bool) (depth : Nat) : (fuel nSect : Nat) → Prog Listing
-  | 0, _ => fault (.outOfFuel "adfGetRDirEnt.recursion")
-  | fuel+1, nSect => do
+mutual
+/-- one hash chain of `adfGetRDirEnt_` starting at `sect`; the budget (one unit per entry block) is
+    threaded through; `(none, _)` = NULL, and a budget of 0 means "limit hit: give up everywhere" -/
+def listChain (v : Nat) (recurs : Bool) (depth : Nat) (fuel sect budget : Nat) : Prog (Listing × Nat) :=
+  match fuel with
+  | 0 => return (none, 0)
+  | fuel+1 => do
+    if sect = 0 then return (some [], budget)
+    if budget = 0 then return (none, 0)
+    let (rc, blk) ← readEntryBlock v sect
+    if rc ≠ rcOK then return (none, budget)
+    let budget := budget - 1
+    let e := { entBlock2Entry blk with sector := sect }
+    let (sub, budget) ← (if recurs ∧ e.type = 2 then listDir v recurs (depth + 1) fuel sect budget
+                         else pure (some [], budget) : Prog (Listing × Nat))
+    if recurs ∧ e.type = 2 ∧ budget = 0 then return (none, 0)
+    match ← listChain v recurs depth fuel (blk.w F_nextSameHash) budget with
+    | (none, b) => return (none, b)
+    | (some rest, b) => return (some ((depth, e) :: (sub.getD []) ++ rest), b)
+termination_by (fuel, 0)
+
+/-- slots i .. 71 of the hash table -/
+def listSlots (v : Nat) (recurs : Bool) (depth : Nat) (parent : Blk) (fuel cnt i budget : Nat) : Prog (Listing × Nat) :=
+  match cnt with
+  | 0 => return (some [], budget)
+  | cnt+1 => do
+    match ← listChain v recurs depth fuel (parent.hash i) budget with
+    | (none, b) => return (none, b)
+    | (some l, b) =>
+      match ← listSlots v recurs depth parent fuel cnt (i + 1) b with
+      | (none, b) => return (none, b)
+      | (some rest, b) => return (some (l ++ rest), b)
+termination_by (fuel, cnt + 1)
+
+/-- `adfGetRDirEnt_` (hash-table mode) -/
+def listDir (v : Nat) (recurs : Bool) (depth : Nat) (fuel nSect budget : Nat) : Prog (Listing × Nat) :=
+  match fuel with
+  | 0 => return (none, 0)
+  | fuel+1 => do
+    if depth > MAX_DIR_DEPTH then return (none, 0)
     let (rc, parent) ← readEntryBlock v nSect
-    if rc ≠ rcOK then return none
-    let mut acc : List (Nat × EntryInfo) := []
-    for i in List.range 72 do
-      if parent.hash i ≠ 0 then
-        match ← listChain v recurs depth fuel (parent.hash i) with
-        | none => return none
-        | some l => acc := acc ++ l
-    return some acc
+    if rc ≠ rcOK then return (none, budget)
+    listSlots v recurs depth parent fuel 72 0 budget
+termination_by (fuel, 0)
 end
 
-def cacheEntry2Info (e : CacheEntry) : EntryInfo :=
+def cacheEntry2Info (dir : Nat) (e : CacheEntry) : EntryInfo :=
   let (y, m, d) := days2DateInt e.days
   { type := if e.type < 128 then (e.type : Int) else (e.type : Int) - 256,
-    name := cstr e.name, sector := e.header, comment := some (cstr e.comm), size := e.size,
+    name := cstr e.name, sector := e.header, parent := dir, comment := some (cstr e.comm), size := e.size,
     access := toInt32 e.protect, year := y, month := m, days := d,
     hour := (e.mins : Int) / 60, mins := (e.mins : Int) % 60, secs := (e.ticks : Int) / 50 }
 
 mutual
-/-- records of one cache block -/
-def listCacheRecords (v : Nat) (recurs : Bool) (depth : Nat) (ra : Bytes) : (fuel cnt offset : Nat) → Prog Listing
-  | 0, _, _ => fault (.outOfFuel "adfGetDirEntCache.records")
-  | _, 0, _ => return some []
-  | fuel+1, cnt+1, off => do
-    match getCacheEntry ra off with
-    | none => return none
+/-- records of one cache block (one unit of budget per record) -/
+def listCacheRecords (v : Nat) (recurs : Bool) (depth dir : Nat) (ra : Bytes) (fuel cnt offset budget : Nat) : Prog (Listing × Nat) :=
+  match cnt with
+  | 0 => return (some [], budget)
+  | cnt+1 => do
+    if budget = 0 then return (none, 0)
+    let budget := budget - 1
+    match getCacheEntry ra offset with
+    | none => return (none, budget)
     | some (ce, off') =>
-      let e := cacheEntry2Info ce
-      let sub ← if recurs ∧ e.type = 2 then listDirCache v recurs (depth + 1) fuel e.sector else pure (some [])
-      match ← listCacheRecords v recurs depth ra fuel cnt off' with
-      | none => return none
-      | some rest => return some ((depth, e) :: (sub.getD []) ++ rest)
+      let e := cacheEntry2Info dir ce
+      let (sub, budget) ← (if recurs ∧ e.type = 2 then listDirCache v recurs (depth + 1) fuel e.sector budget
+                           else pure (some [], budget) : Prog (Listing × Nat))
+      if recurs ∧ e.type = 2 ∧ budget = 0 then return (none, 0)
+      match ← listCacheRecords v recurs depth dir ra fuel cnt off' budget with
+      | (none, b) => return (none, b)
+      | (some rest, b) => return (some ((depth, e) :: (sub.getD []) ++ rest), b)
+termination_by (fuel, cnt + 1)
 
-/-- chain of cache blocks -/
-def listCacheBlocks (v : Nat) (recurs : Bool) (depth : Nat) : (fuel nSect : Nat) → Prog Listing
-  | 0, _ => fault (.outOfFuel "adfGetDirEntCache.nextDirC")
-  | fuel+1, nSect => do
+/-- chain of cache blocks (one unit of budget per block) -/
+def listCacheBlocks (v : Nat) (recurs : Bool) (depth dir : Nat) (fuel nSect budget : Nat) : Prog (Listing × Nat) :=
+  match fuel with
+  | 0 => return (none, 0)
+  | fuel+1 => do
+    if budget = 0 then return (none, 0)
+    let budget := budget - 1
     let (rc, dirc) ← readDirCBlock v nSect
-    if rc ≠ rcOK then return none
-    match ← listCacheRecords v recurs depth (recArea dirc) fuel (recordsNbOf dirc) 0 with
-    | none => return none
-    | some l =>
-      if dirc.w 4 = 0 then return some l
-      match ← listCacheBlocks v recurs depth fuel (dirc.w 4) with
-      | none => return none
-      | some rest => return some (l ++ rest)
+    if rc ≠ rcOK then return (none, budget)
+    -- a record is at least 26 bytes: more than 18 cannot parse, whatever recordsNb says
+    match ← listCacheRecords v recurs depth dir (recArea dirc) fuel (min (recordsNbOf dirc) 20) 0 budget with
+    | (none, b) => return (none, b)
+    | (some l, b) =>
+      if dirc.w 4 = 0 then return (some l, b)
+      match ← listCacheBlocks v recurs depth dir fuel (dirc.w 4) b with
+      | (none, b) => return (none, b)
+      | (some rest, b) => return (some (l ++ rest), b)
+termination_by (fuel, 0)
 
-/-- `adfGetDirEntCache` -/
-def listDirCache (v : Nat) (recurs : Bool) (depth : Nat) : (fuel dir : Nat) → Prog Listing
-  | 0, _ => fault (.outOfFuel "adfGetDirEntCache.recursion")
-  | fuel+1, dir => do
+/-- `adfGetDirEntCache_` -/
+def listDirCache (v : Nat) (recurs : Bool) (depth : Nat) (fuel dir budget : Nat) : Prog (Listing × Nat) :=
+  match fuel with
+  | 0 => return (none, 0)
+  | fuel+1 => do
+    if depth > MAX_DIR_DEPTH then return (none, 0)
     let (rc, parent) ← readEntryBlock v dir
-    if rc ≠ rcOK then return none
-    listCacheBlocks v recurs depth fuel (parent.w F_extension)
+    if rc ≠ rcOK then return (none, budget)
+    listCacheBlocks v recurs depth dir fuel (parent.w F_extension) budget
+termination_by (fuel, 0)
 end
 
 /-- `adfGetRDirEnt(vol, nSect, recurs)` -/
 def getRDirEnt (v nSect : Nat) (recurs : Bool) : Prog Listing := do
   let vc ← getVolCfg v
   let m ← getMem
-  if m.useDirCache ∧ isDIRCACHE vc.dosType then listDirCache v recurs 0 (volFuel vc) nSect
-  else listDir v recurs 0 (volFuel vc) nSect
+  let nblocks := vc.lastBlock - vc.firstBlock + 1
+  -- the fuel only has to exceed what the budget and the depth limit allow
+  if m.useDirCache ∧ isDIRCACHE vc.dosType then
+    let (l, _) ← listDirCache v recurs 0 (2 * nblocks + 2 * MAX_DIR_DEPTH + 100) nSect (2 * nblocks)
+    return l
+  else
+    let (l, _) ← listDir v recurs 0 (nblocks + 2 * MAX_DIR_DEPTH + 100) nSect nblocks
+    return l
 
 end Adf
